@@ -279,6 +279,63 @@ Definition hs_set_op (h : hs) (op : gop) : option hs :=
   | _ => None
   end.
 
+(* ---- in-place edits of a sub-object: x.left.operator = ..., x.right.left = y, x.left &= y, ...
+   path: false = .left, true = .right.  The edit [f] is applied to the sub-object at the end of the path and gives
+   its new value and whether that is still the same Python object (only &= / |= on a leaf or a complement make a
+   new one, which the attribute assignment then stores in the parent: the parent's link for that side is stale).
+   An edit of an object further down leaves every link above it as it is (the objects and their nodes are the same). *)
+Definition stale_compl (nd : option (bool * link)) : option (bool * link) :=
+  match nd with Some (lp, _) => Some (lp, LStale) | None => None end.
+
+Fixpoint hs_at (path : list bool) (f : hs -> option (hs * bool)) (h : hs) : option hs :=
+  match path with
+  | [] => None
+  | d :: rest =>
+      match h with
+      | HUnit _ _ _ => None
+      | HCompl l nd =>
+          if d then None
+          else match rest with
+               | [] => match f l with
+                       | Some (l', same) => Some (HCompl l' (if same then nd else stale_compl nd))
+                       | None => None
+                       end
+               | _ => match hs_at rest f l with Some l' => Some (HCompl l' nd) | None => None end
+               end
+      | HBin op l r nd =>
+          if d then
+            match rest with
+            | [] => match f r with
+                    | Some (r', same) => Some (HBin op l r' (if same then nd else stale_right nd))
+                    | None => None
+                    end
+            | _ => match hs_at rest f r with Some r' => Some (HBin op l r' nd) | None => None end
+            end
+          else
+            match rest with
+            | [] => match f l with
+                    | Some (l', same) => Some (HBin op l' r (if same then nd else stale_left nd))
+                    | None => None
+                    end
+            | _ => match hs_at rest f l with Some l' => Some (HBin op l' r nd) | None => None end
+            end
+      end
+  end.
+
+Inductive atop := AtSetOp (op : gop) | AtSetL | AtSetR | AtIop (op : gop).
+
+Definition is_cell_unit0 (h : hs) : bool := match h with HUnit true _ _ => true | _ => false end.
+
+(* the edit itself (guards of the program runner: no edit of a cell leaf, which only means something under its
+   complement; setters as above) *)
+Definition at_apply (k : atop) (b : hs) (c : hs) : option (hs * bool) :=
+  match k with
+  | AtSetOp op => option_map (fun h => (h, true)) (hs_set_op c op)
+  | AtSetL => option_map (fun h => (h, true)) (hs_set_left c b)
+  | AtSetR => option_map (fun h => (h, true)) (hs_set_right c b)
+  | AtIop op => if is_cell_unit0 c then None else Some (hs_iop op c b)
+  end.
+
 (* ---- writing *)
 Definition is_unit (h : hs) : bool := match h with HUnit _ _ _ => true | _ => false end.
 Definition is_cell_unit (h : hs) : bool := match h with HUnit true _ _ => true | _ => false end.
@@ -378,7 +435,8 @@ Inductive instr :=
 | IIand | IIor                   (* a b -> (a &= b) *)
 | ISetL | ISetR                  (* a b -> a with a.left = b / a.right = b *)
 | ISetOp (op : gop)              (* a -> a with a.operator = op *)
-| IWrite.                        (* a -> a after being written once (in a scratch cell) *)
+| IWrite                         (* a -> a after being written once (in a scratch cell) *)
+| IAt (path : list bool) (k : atop).   (* a [b] -> a after the in-place edit k of its sub-object at path *)
 
 Inductive perr := EStack | EGuard | ENoBase.
 
@@ -401,6 +459,10 @@ Definition step (base : option hs) (i : instr) (st : stack) : perr + stack :=
   | ISetOp op, (a, fa) :: r =>
       match hs_set_op a op with Some h => inr ((h, fa) :: r) | None => inl EGuard end
   | IWrite, (a, fa) :: r => inr ((update_values a, fa) :: r)
+  | IAt path (AtSetOp op), (a, fa) :: r =>
+      match hs_at path (at_apply (AtSetOp op) a) a with Some h => inr ((h, fa) :: r) | None => inl EGuard end
+  | IAt path k, (b, _) :: (a, fa) :: r =>
+      match hs_at path (at_apply k b) a with Some h => inr ((h, fa) :: r) | None => inl EGuard end
   | _, _ => inl EStack
   end.
 
@@ -689,8 +751,23 @@ Fixpoint show_nodes (h : hs) : string :=
         ++ wrap_show kl (show_nodes l) ++ " " ++ wrap_show kr (show_nodes r) ++ ")"
   end.
 
+(* "@LRXU": path L R, edit XU *)
+Fixpoint parse_at (s : string) (path : list bool) : option instr :=
+  match s with
+  | "XI" => Some (IAt (rev path) (AtSetOp OInter))
+  | "XU" => Some (IAt (rev path) (AtSetOp OUnion))
+  | "SL" => Some (IAt (rev path) AtSetL)
+  | "SR" => Some (IAt (rev path) AtSetR)
+  | "IA" => Some (IAt (rev path) (AtIop OInter))
+  | "IO" => Some (IAt (rev path) (AtIop OUnion))
+  | String "L" r => parse_at r (false :: path)
+  | String "R" r => parse_at r (true :: path)
+  | _ => None
+  end.
+
 Definition parse_instr (s : string) : option instr :=
   match s with
+  | String "@" r => parse_at r []
   | "b" => Some IBase
   | "A" => Some IAnd
   | "O" => Some IOr
